@@ -41,5 +41,5 @@ TReport == l > Len(Trace) => /\ PrintT(<<"FAILS", fails>>)
                              /\ PrintT(<<"CONSUMED", l>>)
 
 (* has field *)
-Has(e, f) == f \in DOMAIN e
+HasField(e, f) == f \in DOMAIN e
 =============================================================================
